@@ -162,3 +162,21 @@ package writeback
 //@   label C17.flush.queued
 //@   ensures result ==> len(bufs(f)[bank].elements) == old(len(bufs(f)[bank].elements)) + 1 && bufs(f)[bank].elements[old(len(bufs(f)[bank].elements))] == tix
 //@   assigns f.pipeline.comp.State.FlusherBlockToEvictRefs, f.pipeline.comp.State.Transactions, elems(f.pipeline.comp.State.Transactions), elems(f.pipeline.comp.State.DirToBankBufs), key("E|int|")
+
+// ---- flushCompleted: a flush is acknowledged only when nothing is left in flight ----
+// (in particular no victim write-back, flush-initiated or ordinary, is pending or in flight towards the lower memory)
+//@ func c17Cnts(f) = f.pipeline.comp.State.BankInflightTransCounts
+//@ pred c17Quiet(f) = (forall i in 0..len(bufs(f)) :: len(bufs(f)[i].elements) == 0) && (forall i in 0..len(c17Cnts(f)) :: c17Cnts(f)[i] <= 0) && len(f.pipeline.comp.State.WriteBufferBuf.elements) == 0 && len(f.pipeline.comp.State.InflightFetchIndices) == 0 && len(f.pipeline.comp.State.InflightEvictionIndices) == 0 && len(f.pipeline.comp.State.PendingEvictionIndices) == 0
+//@ fn (*flusher).flushCompleted
+//@   property C17
+//@   requires f != nil && f.pipeline != nil && f.pipeline.comp != nil
+//@   label C17.completed.iff
+//@   ensures result <==> c17Quiet(f)
+//@   label C17.completed.noevictions
+//@   ensures result ==> (len(f.pipeline.comp.State.PendingEvictionIndices) == 0 && len(f.pipeline.comp.State.InflightEvictionIndices) == 0)
+//@   assigns nothing
+//@   loop 0: invariant -1 <= rangeindex && rangeindex < len(bufs(f))
+//@   loop 0: invariant forall j in 0..rangeindex + 1 :: len(bufs(f)[j].elements) == 0
+//@   loop 1: invariant -1 <= rangeindex && rangeindex < len(c17Cnts(f))
+//@   loop 1: invariant forall j in 0..len(bufs(f)) :: len(bufs(f)[j].elements) == 0
+//@   loop 1: invariant forall j in 0..rangeindex + 1 :: c17Cnts(f)[j] <= 0
